@@ -20,6 +20,56 @@ pub enum RunRes {
     Err(ErrSum),
 }
 
+/// Where a cancelled run() leaves its Context (see `RunFut`).
+pub type Rescue = std::rc::Rc<std::cell::RefCell<(bool, Option<Box<Ctx>>)>>;
+
+/// `run()` on a boxed Context that the future owns. Dropping the future drops the inner `run()`
+/// future first and then the Context - exactly what dropping `async move { c.run().await }` does -
+/// unless a rescue was requested: then the Context is handed back, which is what a caller gets who
+/// drops `ctx.run()` (e.g. inside a `select!`) and keeps `ctx`.
+pub struct RunFut {
+    inner: Option<Pin<Box<dyn std::future::Future<Output = Result<(), MqttError>>>>>,
+    ctx: Option<Box<Ctx>>,
+    rescue: Rescue,
+}
+
+impl RunFut {
+    fn new(c: Ctx, rescue: Rescue) -> Self {
+        let mut b = Box::new(c);
+        let p: *mut Ctx = &mut *b;
+        // the box gives the Context a stable address; `inner` is dropped before the box in every path
+        let inner = Box::pin(async move { unsafe { &mut *p }.run().await });
+        Self { inner: Some(inner), ctx: Some(b), rescue }
+    }
+}
+
+impl std::future::Future for RunFut {
+    type Output = (Ctx, Result<(), MqttError>);
+    fn poll(self: Pin<&mut Self>, cx: &mut std::task::Context<'_>) -> Poll<Self::Output> {
+        let this = self.get_mut();
+        match this.inner.as_mut().expect("polled after completion").as_mut().poll(cx) {
+            Poll::Pending => Poll::Pending,
+            Poll::Ready(r) => {
+                this.inner = None;
+                let c = *this.ctx.take().expect("context present");
+                Poll::Ready((c, r))
+            }
+        }
+    }
+}
+
+impl Drop for RunFut {
+    fn drop(&mut self) {
+        self.inner = None;
+        if let Some(c) = self.ctx.take() {
+            let mut r = self.rescue.borrow_mut();
+            if r.0 {
+                r.1 = Some(c);
+            }
+        }
+    }
+}
+
 pub enum CtxSlot {
     Idle(Ctx),
     Connecting(Task<(Ctx, ConnOut)>),
@@ -94,6 +144,7 @@ pub struct World {
     parsed_upto: usize,
     /// indices of operations whose future is still running
     active_ops: Vec<usize>,
+    rescue: Rescue,
 }
 
 impl World {
@@ -119,6 +170,7 @@ impl World {
             pkts: vec![],
             parsed_upto: 0,
             active_ops: vec![],
+            rescue: Default::default(),
         }
     }
 
@@ -198,10 +250,9 @@ impl World {
         match slot {
             CtxSlot::Idle(mut c) | CtxSlot::Returned(mut c) => {
                 self.run_result = None;
-                self.ctx = CtxSlot::Running(Task::new(async move {
-                    let r = c.run().await;
-                    (c, r)
-                }));
+                let _ = &mut c;
+                self.rescue.borrow_mut().0 = false;
+                self.ctx = CtxSlot::Running(Task::new(RunFut::new(c, self.rescue.clone())));
                 true
             }
             other => {
@@ -276,6 +327,39 @@ impl World {
             other => other,
         };
         finished
+    }
+
+    /// Drop the `run()` future but keep the Context (what `select! { _ = ctx.run() => .., .. }`
+    /// does when another branch wins); `start_run` can then be called again.
+    pub fn cancel_run(&mut self) -> bool {
+        let slot = std::mem::replace(&mut self.ctx, CtxSlot::Taken);
+        match slot {
+            CtxSlot::Running(mut t) if t.is_running() => {
+                self.rescue.borrow_mut().0 = true;
+                if let Err(m) = t.cancel() {
+                    self.panics.push(("drop(run future)".into(), m));
+                }
+                let c = {
+                    let mut r = self.rescue.borrow_mut();
+                    r.0 = false;
+                    r.1.take()
+                };
+                match c {
+                    Some(c) => {
+                        self.ctx = CtxSlot::Idle(*c);
+                        true
+                    }
+                    None => {
+                        self.ctx = CtxSlot::Dropped;
+                        false
+                    }
+                }
+            }
+            other => {
+                self.ctx = other;
+                false
+            }
+        }
     }
 
     /// Drop the context, whatever it is doing (cancels a running task).
